@@ -440,6 +440,24 @@ def level_conv():
     for t1, v1 in spell:
         for t2, v2 in spell:
             emit('lit2', [t1, t2], lambda: enc([v1, v2]))
+    # spellings padded with leading zeros (every width on both sides of the longest int64 spelling of each base),
+    # and every literal of small value *used* where the implementation asks "is this a small int?":
+    # shift count, repetition count, sequence and range index, dict key, set member
+    padded = []
+    for n in (0, 1, 3, 5, 31, 36, 49):
+        padded.append(('%d' % n, n))
+        for width in (15, 16, 17, 18, 40):
+            padded.append(('0x' + ('%x' % n).rjust(width, '0'), n))
+        for width in (20, 21, 22, 23, 40):
+            padded.append(('0o' + ('%o' % n).rjust(width, '0'), n))
+        for width in (62, 63, 64, 65, 100):
+            padded.append(('0b' + bin(n)[2:].rjust(width, '0'), n))
+    for t, n in padded:
+        emit('lit', [t], lambda: enc(n))
+        emit('lituse', [t, n], lambda: enc([1 << n, (3 << 100) >> n, -7 >> n, 2 * n, n, 100 + 7 * n, 5, True, True, n, n + 1]))
+    for t1, v1 in padded[::7]:
+        for t2, v2 in padded[::5]:
+            emit('lit2', [t1, t2], lambda: enc([v1, v2]))
     for x in FLOATS:
         if finite(x):
             for form in ('%r', '%.20e', '%.1100f'):
